@@ -523,7 +523,7 @@ func runC12(cfg Config, args []string) int {
 		return Finish(rep0)
 	}
 	ws := &WorldSet{Worlds: worlds, Canon: canon}
-	nHist := cfg.N(48, 1200)
+	nHist := cfg.N(96, 1200)
 	// complete enumeration of truncation points for some accepted worlds
 	type enumItem struct {
 		wi, k int
